@@ -36,4 +36,18 @@ IntOK(r)             == Abs(r.int_ppm) <= IntTol
 \* with noise: every fitted quantity within 5 of its own reported standard errors
 \* (z = 0 is logged when the quantity has the 'no error' marker -1)
 WithinErrors(r) == \A k \in 1..Len(r.z_milli) : Abs(r.z_milli[k]) <= SigmaTol
+
+\* At very high signal to noise 5 reported standard errors are smaller than the
+\* noise-free tolerances of the same property, which the injected truth itself is
+\* only known to; a quantity that meets its noise-free tolerance is accepted.
+\* z_milli = <<ra, dec, peak, a, b, int>> or <<ra, dec, peak, a, b, int, pa>>
+Z(r, k) == Abs(r.z_milli[k]) <= SigmaTol
+WithinErrorsOrTol(r) ==
+    /\ Len(r.z_milli) \in {6, 7}
+    /\ ((Z(r, 1) /\ Z(r, 2)) \/ PositionOK(r))
+    /\ (Z(r, 3) \/ PeakOK(r))
+    /\ (Z(r, 4) \/ MajorOK(r))
+    /\ (Z(r, 5) \/ MinorOK(r))
+    /\ (Z(r, 6) \/ IntOK(r))
+    /\ (Len(r.z_milli) = 7 => (Z(r, 7) \/ Abs(r.dpa_udeg) <= PaTol))
 =============================================================================
